@@ -335,6 +335,7 @@ func (c *C08AllAxes) Run() string {
 				continue
 			}
 			resetLib()
+			rec.Eval()
 			sub := &C08Case{Op: c.Op, DT: c.DT, A: c.A, Axes: s, Via: via}
 			if msg := sub.Run(); msg != "" && msg != inconclusive {
 				return msg
